@@ -153,6 +153,15 @@ func (n *Net) actionFor(d *Datagram) Action {
 	return ActDeliver
 }
 
+// AddFault adds one fault to a running policy (idx = per-direction emission index of the datagram).
+func (n *Net) AddFault(fromClient bool, idx int, act Action) {
+	k := 0
+	if fromClient {
+		k = 1
+	}
+	n.faults[[2]int{k, idx}] = act
+}
+
 // ClearFaults makes the network reliable FIFO from now on (faults apply to the handshake only).
 func (n *Net) ClearFaults() { n.faults = map[[2]int]Action{} }
 
